@@ -91,8 +91,48 @@ Qed.
 (* the type of a gadget node of the elementwise fragment: a leaf, or a triple whose first
    component is a leaf *)
 Definition share_ty (t : ty) : Prop := exists t1 t2 t3, t = TTuple [t1; t2; t3] /\ is_leaf t1 = true.
+Definition is_bil (o : op) : bool := match o with OMultiply | ODot | OMatmul | OGemm _ _ => true | _ => false end.
 Definition elem_gadget (g : gadget) : bool :=
-  match g with GAdd | GSub | GBil OMultiply => true | _ => false end.
+  match g with GAdd | GSub => true | GBil o => is_bil o end.
+
+Lemma infer_bil_leaf o a b r : is_bil o = true -> infer o [a; b] = Ok r -> is_leaf r = true.
+Proof.
+  intros Hb H. destruct o; try discriminate.
+  - eapply infer_arith_leaf in H; [tauto | reflexivity].
+  - (* Dot *)
+    unfold infer in H; cbn [arity] in H; change (zlen [a; b] =? 2) with true in H; cbv iota in H.
+    unfold infer_op in H; cbn [nth] in H. inv_bind H. apply register_inv in H. subst.
+    unfold dot_type_inference in E.
+    destruct (is_leaf a) eqn:La; cbn [negb] in E; [|discriminate].
+    destruct (is_leaf b) eqn:Lb; cbn [negb] in E; [|discriminate].
+    destruct (negb (scalar_eqb (st_of a) (st_of b))); [discriminate|].
+    destruct (is_arr a && is_arr b).
+    + destruct ((zlen (shape_of a) =? 1) && (zlen (shape_of b) =? 1)).
+      * inv_bind E. inv_bind E. match type of E with (if ?c then _ else _) = _ => destruct c; [discriminate|] end. inversion E; reflexivity.
+      * destruct (zlen (shape_of b) =? 1).
+        -- inv_bind E. inv_bind E. match type of E with (if ?c then _ else _) = _ => destruct c; [discriminate|] end. inversion E; reflexivity.
+        -- inv_bind E. inv_bind E. match type of E with (if ?c then _ else _) = _ => destruct c; [discriminate|] end. inversion E; reflexivity.
+    + destruct (is_arr a); inversion E; subst; assumption.
+  - (* Matmul *)
+    unfold infer in H; cbn [arity] in H; change (zlen [a; b] =? 2) with true in H; cbv iota in H.
+    unfold infer_op in H; cbn [nth] in H. inv_bind H. apply register_inv in H. subst.
+    unfold matmul_type_inference in E.
+    destruct (negb (is_arr a)); [discriminate|]. destruct (negb (is_arr b)); [discriminate|].
+    destruct (negb (scalar_eqb (st_of a) (st_of b))); [discriminate|].
+    cbv zeta in E. inv_bind E. inv_bind E. match type of E with (if ?c then _ else _) = _ => destruct c; [discriminate|] end.
+    match type of E with (if ?c then _ else _) = _ => destruct c; [discriminate|] end.
+    inv_bind E. inv_bind E. inv_bind E.
+    match type of E with match ?d with [] => _ | _ => _ end = _ => destruct d; inversion E; reflexivity end.
+  - (* Gemm *)
+    unfold infer in H; cbn [arity] in H; change (zlen [a; b] =? 2) with true in H; cbv iota in H.
+    unfold infer_op in H; cbn [nth] in H. inv_bind H. apply register_inv in H. subst.
+    unfold gemm_type_inference in E.
+    destruct (negb (is_arr a)); [discriminate|]. destruct (negb (is_arr b)); [discriminate|].
+    destruct (negb (scalar_eqb (st_of a) (st_of b))); [discriminate|].
+    match type of E with (if ?c then _ else _) = _ => destruct c; [discriminate|] end.
+    cbv zeta in E. inv_bind E. inv_bind E. match type of E with (if ?c then _ else _) = _ => destruct c; [discriminate|] end.
+    inv_bind E. inv_bind E. inv_bind E. inversion E; reflexivity.
+Qed.
 
 Lemma mapM_parties {B} (f : Z -> result B) l : mapM f parties = Ok l ->
   exists a b c, l = [a; b; c] /\ f 0 = Ok a /\ f 1 = Ok b /\ f 2 = Ok c.
@@ -116,25 +156,24 @@ Qed.
 
 Lemma gadget_ty_shape g t0 t1 r :
   elem_gadget g = true -> gadget_ty g [t0; t1] = Ok r ->
-  (is_leaf t0 = true /\ is_leaf t1 = true /\ is_leaf r = true) \/ share_ty r.
+  (is_leaf t0 = true /\ is_leaf t1 = true) \/ share_ty r.
 Proof.
   intros Hg H. unfold gadget_ty in H.
   assert (Tup : forall rs r, tuple_of_shares rs = Ok r -> forall a b c, rs = [a; b; c] -> is_leaf a = true -> share_ty r).
   { intros rs r' Hr a b c -> La. apply infer_ctuple in Hr. subst. exists a, b, c. auto. }
+  assert (Prim : forall a b r, (match g with GAdd => infer OAdd [a; b] | GSub => infer OSubtract [a; b] | GBil p => infer p [a; b] end) = Ok r -> is_leaf r = true).
+  { intros a b r' Hr. destruct g as [| |p].
+    - eapply infer_arith_leaf in Hr; [tauto | reflexivity].
+    - eapply infer_arith_leaf in Hr; [tauto | reflexivity].
+    - eapply infer_bil_leaf; eauto. }
   destruct t0 as [s0|sh0 s0|n0 e0|v0|f0]; destruct t1 as [s1|sh1 s1|n1 e1|v1|f1]; try discriminate.
-  1-2,4-5: left; destruct g as [| |p]; try (destruct p; try discriminate);
-      apply infer_arith_leaf in H; try reflexivity; tauto.
-  1-2: right; inv_bind H; inv_bind H; destruct (mapM_parties _ _ E0) as (a & b & c & -> & F0 & _);
-      eapply Tup; [exact H | reflexivity |];
-      inv_bind F0; destruct g as [| |p]; try (destruct p; try discriminate);
-      apply infer_arith_leaf in F0; try reflexivity; tauto.
-  1-2: right; inv_bind H; inv_bind H; destruct (mapM_parties _ _ E0) as (a & b & c & -> & F0 & _);
-      eapply Tup; [exact H | reflexivity |];
-      inv_bind F0; destruct g as [| |p]; try (destruct p; try discriminate);
-      apply infer_arith_leaf in F0; try reflexivity; tauto.
+  1-2,4-5: left; split; reflexivity.
+  1-4: right; inv_bind H; inv_bind H; destruct (mapM_parties _ _ E0) as (a & b & c & -> & F0 & _);
+      eapply Tup; [exact H | reflexivity |]; inv_bind F0; destruct g as [| |p];
+      first [ eapply infer_arith_leaf in F0; [tauto | reflexivity] | eapply infer_bil_leaf; eauto ].
   right. inv_bind H. inv_bind H. inv_bind H. destruct (mapM_parties _ _ E1) as (a & b & c & -> & F0 & _).
   eapply Tup; [exact H | reflexivity |].
-  destruct g as [| |p]; try (destruct p; try discriminate).
+  destruct g as [| |p].
   - inv_bind F0. inv_bind F0. apply infer_arith_leaf in F0; try reflexivity; tauto.
   - inv_bind F0. inv_bind F0. apply infer_arith_leaf in F0; try reflexivity; tauto.
   - inv_bind F0. inv_bind F0. inv_bind F0. inv_bind F0. inv_bind F0. inv_bind F0. inv_bind F0.
